@@ -311,10 +311,12 @@ def run_shard(spec, acc):
                 last_claim[ev.src] = inp
         # the reference has seen nothing but the most recent claim of every source, once (repeated and superseded
         # claims are history like everything else)
-        for inp in last_claim.values():
-            call(ref, inp)
         compared = 0
         for pr in probes(pool, rng, sources):
+            # a reference of its own for every probe: it has seen the claims and nothing else, not even earlier probes
+            ref = NMEA2000Decoder(**cfg)
+            for inp in last_claim.values():
+                call(ref, inp)
             ov = [call(victim, i) for i in pr]
             orf = [call(ref, i) for i in pr]
             acc.count("probes_compared")
@@ -322,7 +324,7 @@ def run_shard(spec, acc):
             if ov != orf:
                 kind = "fast-packet-probe" if len(pr) > 1 else "single-frame-probe"
                 acc.violation(f"history-changes-{kind}", f"config {cfg}: probe decodes differently after the history than on a decoder that only saw its claims",
-                              dict(w, probe=[i[1].hex() for i in pr], victim=repr(ov)[:400], reference=repr(orf)[:400]))
+                              dict(w, probe=[(i[1].hex() if isinstance(i[1], (bytes, bytearray)) else i[1]) for i in pr], victim=repr(ov)[:400], reference=repr(orf)[:400]))
 
         # an address claim is a single-frame message too: repeating a source's current claim must decode exactly as
         # the same claim decodes on a decoder without any history
